@@ -11,7 +11,7 @@ PROP = {
             "is 0, negative or >= width-1; distinct = distinct hash of (type, operand words), enumerations count their own indices.",
     "builds": {
         "quick": [B("stable"), B("chk")],
-        "thorough": [B("stable"), B("chk")],
+        "thorough": [B("stable"), B("chk", 0.5)],
     },
     "timeout": {"quick": 1800, "thorough": 7200},
     "technique": "property-based testing: exhaustive / strided operand-pair sweeps and boundary-biased proptest generation against the Rust integer primitive per lane "
